@@ -76,7 +76,8 @@ structure Conn where
   wills : List Will := []
   /-- text: `lockRequestId` — token of the LOCK/UNLOCK the handler is blocked on (0 = zeroed) -/
   awaiting : Nat := 0
-  /-- text: the peer is gone while the handler is blocked; noticed at the next write -/
+  /-- text: the peer is gone while the handler is blocked; noticed at the next write. Binary: only in ADMIN mode, while
+  the nested text handler is blocked with the peer gone: replies written for the binary protocol are lost -/
   halfClosed : Bool := false
   /-- binary: the record of the nested text protocol started by ADMIN -/
   nested : Option Nat := none
@@ -136,7 +137,7 @@ def recvN (s : Server) : Nat → Nat → Nat → Dest
         else if x.halfClosed then .lost d
         else .to d
       | .binary =>
-        if !x.closed then .to d
+        if !x.closed then (if x.halfClosed then .dropped else .to d)   -- halfClosed: ADMIN mode, peer gone: the write fails
         else if !x.inited then .dropped
         else match aget s.clients x.cid with
           | none => .dropped
@@ -344,6 +345,11 @@ def stepClose (s : Server) (c : Nat) : Server × Out :=
       match r₂.2 with
       | .closed res₂ f => (r₂.1, .closed (res₁ ++ res₂) f)
       | _ => r₂
+    | .deferred =>
+      -- the nested handler is blocked: nothing ends yet, but whatever is written to the stream from now on is lost
+      match r₁.1.conns[streamOf s c]? with
+      | some x => ({ r₁.1 with conns := r₁.1.conns.set (streamOf s c) { x with halfClosed := true } }, .deferred)
+      | none => r₁
     | _ => r₁
 
 /-- after the reply reached a text connection: `lockRequestId` is zeroed, the handler goes on; if the peer is gone the
